@@ -40,11 +40,15 @@ Definition wmean_ok (l : list (Q * Q)) (r tol : Q) : bool :=
 (* ---------- air <-> vacuum: what the property demands of one observed value ---------- *)
 Definition threshold_A : Q := 2000.
 
-(* x: input wavelength in Angstrom; r: output in Angstrom *)
-Definition airtovac_ok (x r : Q) : bool := if Qle_bool threshold_A x then negb (Qle_bool r x) else Qeq_bool r x.
-Definition vactoair_ok (x r : Q) : bool := if Qle_bool threshold_A x then negb (Qle_bool x r) else Qeq_bool r x.
-
 Definition rel_close (a b tol : Q) : bool := Qle_bool (Qabs (a - b)) (tol * Qabs b).
+
+(* x: input wavelength in Angstrom; r: output in Angstrom.  At or above the threshold vacuum > air strictly; below it the
+   value is returned unchanged (1e-12 relative: a Quantity in nm or um makes a round trip through Angstrom) *)
+Definition unchanged_tol : Q := 1 # 1000000000000.
+Definition airtovac_ok (x r : Q) : bool :=
+  if Qle_bool threshold_A x then negb (Qle_bool r x) else rel_close r x unchanged_tol.
+Definition vactoair_ok (x r : Q) : bool :=
+  if Qle_bool threshold_A x then negb (Qle_bool x r) else rel_close r x unchanged_tol.
 
 Close Scope Q_scope.
 
